@@ -72,6 +72,19 @@ func checkC03(c *Ctx) {
 				`Equal\(local:\[32\]byte, param#0\.hpk\)`,
 			})
 
+		// the cached H(ek) is the hash of the bytes received (a round-3 Kyber key with unreduced coefficients
+		// re-encodes differently), and a decoded Kyber decapsulation key takes h and z from their offsets
+		// (for ML-KEM the modulus check makes the two coincide, so the rule is not armed there)
+		c.seqRule(p, "C03.keycheck", "the cached H(pk) of a round-3 Kyber key is SHA3-256 of the received encoding", p.Func(ky, "PublicKey", "Unpack"),
+			[]string{hw, hr},
+			[]string{`Write\(&call:internal/sha3\.New256, param#1\)`, `Read\(&call:internal/sha3\.New256, param#0\.hpk\)`})
+		c.seqRule(p, "C03.keycheck", "a decoded Kyber decapsulation key takes H(pk) and z from the tail of the encoding", p.Func(ky, "PrivateKey", "Unpack"),
+			[]string{hw, hr, "builtin.copy"},
+			[]string{
+				fmt.Sprintf(`copy\(param#0\.hpk, param#1\[%d:\]\[%d:\]\[:32\]\)`, s.sk, s.pk),
+				fmt.Sprintf(`copy\(param#0\.z, param#1\[%d:\]\[%d:\]\[32:\]\)`, s.sk, s.pk),
+			})
+
 		// FO transform sequences
 		enc, dec := "(*"+pp+".PublicKey).EncryptTo", "(*"+pp+".PrivateKey).DecryptTo"
 		ops := []string{hw, hr, enc, dec, "builtin.copy"}
